@@ -13,6 +13,6 @@ def run(tier, seed, replay):
     return csscommon.run_css(
         "C10", tier, seed, replay, ["val", "tok"], ["numbers"],
         "cases = 28 numeric spellings x 5 units x 10 value shapes x {declaration, custom property, media query, keyframes, "
-        "font-face, z-index} x rpx_ratio in {750, 375, 1, 0.5}; non-trivial = distinct (source, ratio)",
-        ratios=(750, 375, 1, 0.5) if tier != "quick" else (750, 0.5),
+        "font-face, z-index} x rpx_ratio in {750, 375, 1, 0.5, 7.5, 750.5} (quick: 750, 0.5, 7.5); non-trivial = distinct (source, ratio)",
+        ratios=(750, 375, 1, 0.5, 7.5, 750.5) if tier != "quick" else (750, 0.5, 7.5),
         samples={"val": {"quick": 6, "thorough": None}}, variants=1)
